@@ -116,8 +116,22 @@ func runC07Live(c *mon.Case) {
 			if len(pool) == 0 {
 				return msg // nothing to replay yet: this session rewrites nothing
 			}
+			pick := len(pool) - 1 - int(seen.Load())%len(pool)
+			if mode == 5 {
+				// the record of the opposite direction with the same
+				// ordinal (same nonces) if it has been seen: with the
+				// passphrase pattern the client sends two acts before its
+				// first record, the server one
+				idx := target + 1
+				if dirC2S {
+					idx = target - 1
+				}
+				if idx >= 0 && idx < len(pool) {
+					pick = idx
+				}
+			}
 			rewritten.Add(1)
-			return append(append([]byte{}, msg[:4]...), pool[len(pool)-1-int(seen.Load())%len(pool)]...)
+			return append(append([]byte{}, msg[:4]...), pool[pick]...)
 		}
 		rewritten.Add(1)
 		return repl(msg)
